@@ -99,5 +99,14 @@ P_UNMAPPED = dict(
     files=[('lib0', 'm.vhd', [M, '']), (None, 'n.vhd', ['', N, N2])],
     units={'m.vhd': [['m', 'm/a'], []], 'n.vhd': [[], ['n', 'n/a'], ['n', 'n/a']]})
 
-C01_PROJECTS = [P_USE_ALL, P_CONFIG, P_CONTEXT, P_DUP, P_LIB_ALL, P_UNMAPPED]
+PA_USES_B = "use work.pkg_b.all;\n\npackage pkg_a is\n  constant ca : natural := 0;\nend package;\n"
+PA_PLAIN = "package pkg_a is\n  constant ca : natural := 0;\nend package;\n"
+PB_PLAIN = "package pkg_b is\n  constant cb : natural := 1;\nend package;\n"
+PB_USES_A = "use work.pkg_a.all;\n\npackage pkg_b is\n  constant cb : natural := ca;\nend package;\n"
+P_REVERSAL = dict(
+    name='two packages whose dependency can be dropped, reversed or made circular',
+    files=[('lib0', 'a.vhd', [PA_USES_B, PA_PLAIN]), ('lib0', 'b.vhd', [PB_PLAIN, PB_USES_A])],
+    units={'a.vhd': [['pkg_a'], ['pkg_a']], 'b.vhd': [['pkg_b'], ['pkg_b']]})
+
+C01_PROJECTS = [P_USE_ALL, P_CONFIG, P_CONTEXT, P_DUP, P_LIB_ALL, P_UNMAPPED, P_REVERSAL]
 SYM_ALPHABET = 'abcdefghijklmnopqrstuvwxyzABCDEFGHIJKLMNOPQRSTUVWXYZ0123456789'
